@@ -1,5 +1,6 @@
 (* C15 - Memory and register access is exact.  Statements only. *)
 From BS Require Import Model.Base Model.Mem Gen.Regs Model.Regs Spec.X86Dwarf Proofs.MemProofs Proofs.RegsProofs.
+From BS Require Import Gen.Disasm Model.Disasm Proofs.DisasmProofs.
 Open Scope N_scope.
 
 (* A read returns exactly the bytes the process holds when all requested bytes are mapped,
@@ -47,3 +48,53 @@ Example C15_example_write_across_words :
   | Ok m' => window_eqb m' 0 (map Some [1;2;3;4;5;6;100;101;102;103;11;12;13;14;15;16;17;18;19;20;21;22;23;24])
   | _ => false end = true.
 Proof. vm_compute. reflexivity. Qed.
+
+(* ---- Disassembly shows original instructions, not the debugger's patches ----
+   Memory holds the image with a trap byte at every address of [addrs]; the registry lists at least every patched
+   address of the window, each with the image byte as saved byte (C01/C02's invariant mem_is_patch).  Then the text
+   that Disassembler::disasm_function hands to the decoder is the image, for any function size and any number of
+   breakpoints, wherever they lie (inside, at the start, at or behind the end) ... *)
+Theorem C15_disasm_original : forall s image addrs bps,
+  (forall a sv, In (a, sv) bps -> s <= a -> a < s + N.of_nat (length image) -> sv = nth (N.to_nat (a - s)) image 0) ->
+  (forall a, In a addrs -> s <= a -> a < s + N.of_nat (length image) -> exists sv, In (a, sv) bps) ->
+  mask_fn_text s (s + N.of_nat (length image)) (patched s image addrs) bps = Ok image.
+Proof. exact disasm_original. Qed.
+
+(* ... and the unchecked index `text[a - s]` never leaves the buffer, whatever the breakpoint table holds
+   (stated over the filter closure as regenerated from the source: Gen.Disasm.bp_in_text). *)
+Theorem C15_disasm_no_panic : forall s e text bps,
+  s <= e -> length text = N.to_nat (e - s) -> exists t', mask_fn_text s e text bps = Ok t' /\ length t' = length text.
+Proof. exact disasm_no_panic. Qed.
+
+(* before fix c4e56bb the filter was `start <= a <= end`: a breakpoint on the first address behind the function
+   (the entry of the next function when no padding separates them) indexed one past the buffer *)
+Theorem C15_disasm_end_panic_refuted_old :
+  mask_fn_text_with bp_in_text_old 16 17 [INT3_BYTE] [(17, 85)] = Panic 15.
+Proof. exact disasm_end_panic_old. Qed.
+
+(* The DAP `disassemble` helpers read code through Debugger::read_original_code (both call sites, regenerated flag) ... *)
+Theorem C15_dap_disasm_reads_original_now : DAP_DISASM_READS_ORIGINAL = true.
+Proof. exact dap_reads_original_now. Qed.
+
+(* ... which returns the image for any window, any set of enabled breakpoints (disabled ones are skipped: their saved
+   byte is not trusted), and never indexes outside the bytes it read *)
+Theorem C15_dap_disasm_original : forall addr image addrs bps,
+  (forall a sv, In (a, sv, true) bps -> addr <= a -> a - addr < N.of_nat (length image) -> sv = nth (N.to_nat (a - addr)) image 0) ->
+  (forall a, In a addrs -> addr <= a -> a - addr < N.of_nat (length image) -> exists sv, In (a, sv, true) bps) ->
+  dap_disasm_text DAP_DISASM_READS_ORIGINAL addr (patched addr image addrs) bps = Ok image.
+Proof. exact dap_disasm_original. Qed.
+
+Theorem C15_read_original_no_panic : forall addr bytes bps,
+  exists t', orig_code addr bytes bps = Ok t' /\ length t' = length bytes.
+Proof. exact read_original_no_panic. Qed.
+
+(* before fix 7fbf91e the helpers decoded raw memory: an instruction carrying a breakpoint was shown as int3 *)
+Theorem C15_dap_disasm_raw_refuted_old :
+  exists addr image addrs bps t,
+    dap_disasm_text false addr (patched addr image addrs) bps = Ok t /\ t <> image.
+Proof. exact dap_disasm_raw_old. Qed.
+
+Example C15_example_disasm :
+  mask_fn_text 4096 (4096 + 3) (patched 4096 [85; 72; 137] [4096; 4098; 4099]) [(4098, 137); (4096, 85); (4099, 0); (5000, 7)]
+  = Ok [85; 72; 137].
+Proof. exact disasm_original_example. Qed.
